@@ -40,7 +40,8 @@ def replay_obj(g, stage, payload="plain"):
 
 def stages_for(g, origin):
     # restructure() is the fourth public driver; alternate it in
-    return STAGES3 + (("restructure",) if (len(g) % 2 == 0) else ())
+    # and, for the other half, the same pipeline driven level by level through the drivers of the sub-graphs
+    return STAGES3 + (("restructure",) if (len(g) % 2 == 0) else ("levelwise",))
 
 
 def has_synth_branch(flat):
